@@ -167,7 +167,11 @@ def run(ctx: core.Ctx):
         if rng.random() < 0.02:
             ln = rng.choice(["@UNDEFINED", "@RESTRICTED"]) + rng.choice(["", "", " ", "\n", ":a=b"])
         got.clear()
-        proto.handle_line(ln)
+        try:
+            proto.handle_line(ln)
+        except Exception as e:  # noqa: BLE001
+            ctx.violation(f"handle_line({ln!r}) raised {type(e).__name__}: {e} (in the reader thread this ends the connection)", {"line": ln}, {"kind": "raises"})
+            got.append(("EXC", None, None, None))
         ops.append("line " + core.hx(ln))
         real_out.append(msg_str(*got[0]) if len(got) == 1 else f"{len(got)} notifications")
         metas.append(("line", ln))
